@@ -305,16 +305,30 @@ def py_reference(df, y, m, d):
 # ----------------------------------------------------------------------------- pools
 
 
+def _retrying(arg):
+    """bin/oracle_iso can be re-linked in place by a concurrently running check of another tree (common.build_oracle);
+    a worker whose oracle process dies is restarted (jobs are deterministic functions of their tag)."""
+    fn, job = arg
+    for attempt in range(4):
+        try:
+            return fn(job)
+        except (RuntimeError, BrokenPipeError, OSError) as ex:
+            if attempt == 3 or not ("died" in str(ex) or isinstance(ex, (BrokenPipeError, OSError))):
+                raise
+            time.sleep(3 + 4 * attempt)
+
+
 def run_pool(fn, jobs, nproc):
     try:
         nproc = max(1, min(nproc, int(os.environ.get("VERIF_NPROC", nproc))))
     except ValueError:
         pass
+    wrapped = [(fn, j) for j in jobs]
     if nproc <= 1 or len(jobs) <= 1:
-        return [fn(j) for j in jobs]
+        return [_retrying(w) for w in wrapped]
     ctx = multiprocessing.get_context("fork")
     with ctx.Pool(min(nproc, len(jobs))) as p:
-        return p.map(fn, jobs, chunksize=1)
+        return p.map(_retrying, wrapped, chunksize=1)
 
 
 def merge_hist(a, b):
